@@ -320,6 +320,7 @@ def invalid_values(kind):
                 ('list_of_q', {'t': 'list', 'v': [Q(30.0, 'deg')]})]
     if kind == 'pixpos':
         return [('array', pixarr), ('array2d', pix2d), ('sky', skys),
+                ('became_array', {'_mutated': 'scalar_to_array'}),
                 ('array1', {'t': 'pix', 'x': [1.0], 'y': [2.0]}),
                 ('array0', {'t': 'pix', 'x': {'t': 'arr', 'v': []},
                             'y': {'t': 'arr', 'v': []}}),
@@ -334,6 +335,7 @@ def invalid_values(kind):
                 ('quantity', Q([10.0, 20.0], 'deg'))]
     if kind == 'pixverts':
         return [('scalar', pixs), ('array2d', pix2d), ('skyarr', skyarr),
+                ('became_scalar', {'_mutated': 'array_to_scalar'}),
                 ('list', {'t': 'list', 'v': [{'t': 'tuple', 'v': [1.0, 2.0]},
                                              {'t': 'tuple', 'v': [3.0, 4.0]},
                                              {'t': 'tuple', 'v': [0.0, 4.0]}]}),
@@ -347,7 +349,26 @@ def invalid_values(kind):
     return []
 
 
+def _mutated_pixcoord(how):
+    """A PixCoord that WAS valid, was used (validated) as such, and whose
+    public data members were then re-assigned so that it no longer is."""
+    from regions import CirclePixelRegion, PixCoord, PolygonPixelRegion
+    if how == 'scalar_to_array':
+        p = PixCoord(1.0, 2.0)
+        CirclePixelRegion(p, 1.0)                 # validated while scalar
+        p.x = np.array([1.0, 2.0, 3.0])
+        p.y = np.array([4.0, 5.0, 6.0])
+    else:
+        p = PixCoord(np.array([1.0, 5.0, 3.0]), np.array([1.0, 1.0, 6.0]))
+        PolygonPixelRegion(p)                     # validated while 1-D
+        p.x = 1.0
+        p.y = 2.0
+    return p
+
+
 def build_invalid(rec):
+    if isinstance(rec, dict) and rec.get('_mutated'):
+        return _mutated_pixcoord(rec['_mutated'])
     if isinstance(rec, dict) and rec.get('_2d'):
         import astropy.units as u
         from astropy.coordinates import SkyCoord
